@@ -12,11 +12,14 @@ CLAIMED = {
              "all[toPositive(javaMurmur2(key)) mod n] where javaMurmur2 is the BitVec-32 transcription of the Java "
              "client, independent of availability, and that an unkeyed record lands in `available` when non-empty. "
              "The model is tied to /repo by a differential check on every run (exhaustive keys of length 0..2, "
-             "high-bit tails, random keys to 4 KiB, counts 1..1000, the producer._partition glue).",
+             "high-bit tails, random keys to 4 KiB, counts 1..1000, the producer._partition glue) and, statement by "
+             "statement, by a translator (harness/extract/murmur.py) that regenerates Gen/MurmurSrc.lean from the source "
+             "text of partitioner.py on every run; c17_source_is_model (the source is the program the model transcribes) "
+             "is a proof obligation of the check.",
         design="3/C17",
         note="trusted: Lean kernel (+propext, Classical.choice, Quot.sound); my transcription of Java's "
              "Utils.murmur2; the T-diff harness and driver; random.choice as an index oracle.",
-        technique="Lean 4 theorem (fun_induction over 4-byte words, BitVec bridging lemmas) + differential correspondence check",
+        technique="Lean 4 theorem (fun_induction over 4-byte words, BitVec bridging lemmas) + source-to-Lean translator regenerated every run + differential correspondence check",
     ),
     "C14": dict(
         text="Lean 4 proofs for every input (any number of members, topics, partitions): range assignor — the slices "
